@@ -41,7 +41,7 @@ def A(label, cond):
 def jobs():
     out = []
     def mk(name, body, ncanary, functions):
-        src = PRE + 'void harness(void)\n{\n    struct ObjectQueue q, o; struct ObjectHeaderBase *obj; uint32_t n;\n    __CPROVER_assume(RI(q)); o = q; vb_exc = 0;\n' + body + '    __CPROVER_assert(0, "canary");\n}\n'
+        src = PRE + 'void harness(void)\n{\n    struct ObjectQueue q, o; struct ObjectHeaderBase *obj; uint32_t n;\n    { uint64_t t; VB_J = t; }   /* the observed sequence number is arbitrary */\n    __CPROVER_assume(RI(q)); o = q; vb_exc = 0;\n' + body + '    __CPROVER_assert(0, "canary");\n}\n'
         out.append(core.Job('C16_ObjectQueue_' + name, src, route='harness', flags=FLAGS, functions=functions,
                             canary_ids=['harness.assertion.%d' % ncanary], timeout=300))
     # ---- read
@@ -117,7 +117,7 @@ def jobs():
     __CPROVER_loop_invariant((uint64_t)vb_deleted == self->m_queue.head_seq - vb_head0) \\
     __CPROVER_decreases(self->m_queue.tail_seq - self->m_queue.head_seq)
 #include "ObjectQueue.c"''')
-    src += 'void harness(void)\n{\n    struct ObjectQueue q, o;\n    __CPROVER_assume(RI(q)); o = q; vb_deleted = 0; vb_head0 = q.m_queue.head_seq;\n    ObjectQueue_dtor(&q);\n'
+    src += 'void harness(void)\n{\n    struct ObjectQueue q, o;\n    { uint64_t t; VB_J = t; }\n    __CPROVER_assume(RI(q)); o = q; vb_deleted = 0; vb_head0 = q.m_queue.head_seq;\n    ObjectQueue_dtor(&q);\n'
     src += A('dtor/deletes-every-queued-object-exactly-once', '(uint64_t)vb_deleted == SIZE(o) && EMPTY(q)')
     src += A('dtor/aborts-first-(releases-waiters)', 'q.m_abort')
     src += '    __CPROVER_assert(0, "canary");\n}\n'
